@@ -123,3 +123,8 @@ def run(eng, tier):
         'inventory': {'writes_checked': nw, 'namespaces': {k: sorted(v) for k, v in by_ns.items()}},
         'trusted_base': ['interpreter storage model', 'linear domain'], 'not_decided': [], 'assumptions': ['I4/I7 on loaded bids'],
     }
+
+import probes as _pb
+PROBES = [
+    _pb.drop_facts('execute', 'RejectBid', '0 == (BID.base.amount'),
+]
